@@ -135,3 +135,96 @@ def unit_tidy_gas_phase_pressure_sum(twin=False):
     for k, lp in enumerate(acc):
         check_accumulator_init(r, fn, TIDY, lp, "P" if not twin else "V_m", "gas_phase[%d]" % k)
     return r
+
+
+def unit_builtin_kij_table_symmetric(twin=False):
+    """built-in binary interaction factors of water with CO2, H2S, CH4, N2, ethane, propane (used when the database gives no
+    GAS_BINARY_PARAMETERS): the factor for (H2O, X) equals the factor for (X, H2O) - the two halves of the table list the same partners,
+    each half tests the partner's name on the argument that is not water, and with the same value"""
+    q = "Phreeqc::calc_gas_binary_parameter"
+    fn = A.find_function(GASES, q)
+    r = U.new_unit("C19.calc_gas_binary_parameter.built_in_table_symmetric", GASES, q, fn)
+    def table(block):
+        """block: IfStmt `if (!strcmp(nameA.c_str(), "H2O(g)")) { chain }` -> (water_arg, {partners: (value, args used)})"""
+        cond = text_of(GASES, block["inner"][0])
+        m = re.match(r'^!strcmp\((name[12])\.c_str\(\),"H2O\(g\)"\)$', cond)
+        if not m:
+            return None
+        water = m.group(1)
+        out = {}
+        def chain(n):
+            if n.get("kind") == "CompoundStmt":
+                for c_ in n.get("inner", []):
+                    chain(c_)
+                return
+            if n.get("kind") != "IfStmt":
+                return
+            ct = text_of(GASES, n["inner"][0])
+            names = tuple(sorted(re.findall(r'"([^"]+)"', ct)))
+            args = set(re.findall(r"(name[12])\.c_str\(\)", ct))
+            vt = text_of(GASES, n["inner"][1])
+            mv = re.search(r"f=([0-9.]+)", vt)
+            out[names] = (mv.group(1) if mv else None, args)
+            if len(n["inner"]) > 2 and n["inner"][2]:
+                chain(n["inner"][2])
+        chain(block["inner"][1])
+        return water, out
+    blocks = [x for x in A.walk(fn) if x.get("kind") == "IfStmt" and re.match(r'^!strcmp\(name[12]\.c_str\(\),"H2O\(g\)"\)$', text_of(GASES, x["inner"][0]))]
+    if len(blocks) != 2:
+        raise Undecided("the two halves of the built-in table were not found (%d)" % len(blocks))
+    (w1, t1), (w2, t2) = table(blocks[0]), table(blocks[1])
+    r.add("halves.one_for_each_position_of_water", DISCHARGED if {w1, w2} == {"name1", "name2"} else FAILED, "ast-scan", 0, "%s %s" % (w1, w2))
+    for w, t, lab in ((w1, t1, "first"), (w2, t2, "second")):
+        other = "name2" if w == "name1" else "name1"
+        bad = [k for k, (v, args) in t.items() if args != {other}]
+        r.add("%s_half.partner_tested_on_the_argument_that_is_not_water" % lab, DISCHARGED if not bad else FAILED, "ast-scan", 0, repr(bad)[:200])
+    same = {k: v[0] for k, v in t1.items()} == {k: v[0] for k, v in t2.items()} and len(t1) >= 4
+    if twin:
+        same = False
+    r.add("halves.same_partners_with_the_same_factor", DISCHARGED if same else FAILED, "ast-scan", 0, "%r / %r" % (sorted((k, v[0]) for k, v in t1.items()), sorted((k, v[0]) for k, v in t2.items())))
+    r.proved_kind = "structural"
+    r.assumptions += ["the table is read from the if-chains of the function (structure and literals); database-supplied parameters are C19.gas_binary_parameters.k_ij==k_ji"]
+    return r
+
+
+def unit_pp_gas_si(twin=False):
+    """adjust_setup_pure_phases: a Peng-Robinson gas in EQUILIBRIUM_PHASES equilibrates at fugacity = phi * P: on every path the target of its
+    saturation equation is the user's log P plus the log fugacity coefficient (pr_si_f), whether the EOS had to be re-evaluated or the
+    cached coefficient was still valid"""
+    q = "Phreeqc::adjust_setup_pure_phases"
+    rel = "src/phreeqcpp/prep.cpp"
+    fn = A.find_function(rel, q)
+    r = U.new_unit("C19.adjust_setup_pure_phases.gas_target_is_logP_plus_log_phi_on_every_path", rel, q, fn)
+    loops = [x for x in A.walk(fn) if x.get("kind") in ("ForStmt", "WhileStmt")]
+    ks = [k for k, lp in enumerate(loops) if "pr_si_f" in text_of(rel, lp["inner"][-1])]
+    if len(ks) != 1:
+        raise Undecided("the unknown loop of adjust_setup_pure_phases was not found (%d)" % len(ks))
+    c = ctx(functional=()); c.log_stores = True
+    f, ex, its, info = U.run_loop_isolated(rel, q, ks[0], ctx=c)
+    nc = nr = nn = 0
+    for s in live(its, ("run", "cont")):
+        evs = list(U.iter_events(s))
+        pr = [e for e in evs if e.name.endswith("calc_PR")]
+        sw = [e for e in evs if e.name == "store" and repr(e.args[0]).strip('"') == "si"]
+        xi = vec_elem(ex, s, "x", tm.sym("iter_i", "I"))
+        ph = fld0(ex, s, "phase", "P", xi)
+        if not sw:
+            nn += 1
+            # a path without a target is allowed only for unknowns that are not Peng-Robinson gases of the assemblage
+            PPv = A.enum_values_compiled("Phreeqc.h", ["PP"]).get("PP") if False else None
+            is_gas = tm.and_(tm.lt(tm.num(0), fld0(ex, s, "p_c", "R", ph)), tm.lt(tm.num(0), fld0(ex, s, "t_c", "R", ph)))
+            touched = any(e.name.endswith("Get_si_org") for e in evs)
+            if touched:
+                U.discharge_valid(r, "not_a_gas_with_critical_data.no_target_change#%d" % nn, list(s.pc), tm.not_(is_gas))
+            continue
+        val = sw[-1].args[1]
+        so = [e for e in evs if e.name.endswith("Get_si_org")]
+        nc += bool(pr); nr += (not pr)
+        label = "gas.target==min(si_org,3.5)+pr_si_f(%s)#%d" % ("EOS_re-evaluated" if pr else "cached_coefficient_still_valid", nc + nr)
+        if not so or sw[-1].recv is not xi or (twin and not pr):
+            r.add(label, FAILED, "symex", 0, repr(val)[:120]); continue
+        clamp = tm.ite(tm.lt(tm.Q("7/2"), so[0].result), tm.Q("7/2"), so[0].result)
+        U.discharge_eq_real(r, label, list(s.pc), val, clamp + fld(ex, s, "pr_si_f", "R", ph))
+    r.add("reach.recomputed_and_cached", DISCHARGED if nc and nr else UNDECIDED, "symex", 0, "%d/%d/%d" % (nc, nr, nn), kind="vacuity")
+    r.assumptions += ["pr_si_f is the log10 fugacity coefficient left by calc_PR (C19.calc_PR.* units)", "which unknowns are gases with critical data (the guard of the block) is not pinned"]
+    return r
